@@ -153,25 +153,55 @@ func (x *Exec) mapAccessCheck(fr *Frame, st *State, in ssa.Instruction, m Val, w
 	st.check(o, x.heldTerm(st, g.arr, g.owner, write))
 }
 
-// onAcquire: in T-mode every field guarded by the acquired mutex is havocked.
+// onAcquire: in T-mode every field guarded by the acquired mutex is havocked: other threads may
+// have changed it since this thread last held the lock.  The mutex may live in an embedded struct
+// (memfs: dirNode embeds baseNode, which holds mu): the fields of the enclosing objects that
+// declare this mutex as their guard are havocked too.
 func (x *Exec) onAcquire(fr *Frame, st *State, mu Val, write bool) {
 	if !x.tmode || mu.K != VFieldPtr {
 		return
 	}
-	ts := x.typeSpecOfStruct(mu.ST)
+	x.havocGuarded(st, mu.ST, mu.T, mu.FV.Name())
+	// enclosing objects: (v_sub.<T>.<f> inner)
+	cur := mu.T.S
+	for strings.HasPrefix(cur, "(v_sub.") && strings.HasSuffix(cur, ")") {
+		sp := strings.Index(cur, " ")
+		if sp < 0 {
+			break
+		}
+		sel := cur[len("(v_sub."):sp] // <pkg.T>.<field>
+		inner := cur[sp+1 : len(cur)-1]
+		dot := strings.LastIndex(sel, ".")
+		if dot < 0 {
+			break
+		}
+		tname := sel[:dot]
+		if outer := x.structTypeByName(tname); outer != nil {
+			x.havocGuarded(st, outer, Term{inner, SRef}, mu.FV.Name())
+		}
+		cur = inner
+	}
+}
+
+// havocGuarded havocs the fields of the object ref (of struct type t) whose declared guard is mutex field mu.
+func (x *Exec) havocGuarded(st *State, t types.Type, ref Term, mu string) {
+	ts := x.typeSpecOfStruct(t)
 	if ts == nil {
 		return
 	}
-	sstruct := types.Unalias(mu.ST).Underlying().(*types.Struct)
+	sstruct, ok := types.Unalias(t).Underlying().(*types.Struct)
+	if !ok {
+		return
+	}
 	for i := 0; i < sstruct.NumFields(); i++ {
 		f := sstruct.Field(i)
-		if ts.GuardedBy[f.Name()] != mu.FV.Name() {
+		if ts.GuardedBy[f.Name()] != mu {
 			continue
 		}
-		x.havocField(st, mu.ST, mu.T, f.Name())
+		x.havocField(st, t, ref, f.Name())
 		if mt, ok := types.Unalias(f.Type()).Underlying().(*types.Map); ok {
 			// the contents of a guarded map are guarded too
-			mv := st.loadField(mu.ST, f, mu.T)
+			mv := st.loadField(t, f, ref)
 			dom, domS, vals, valS, ln := st.mapArrs(mt)
 			d := st.hget(dom, domS)
 			st.hset(dom, Store(d, mv.T, x.enc.Fresh("acq.dom", elemSort(domS))))
@@ -180,14 +210,74 @@ func (x *Exec) onAcquire(fr *Frame, st *State, mu Val, write bool) {
 				st.hset(vals[k], Store(a, mv.T, x.enc.Fresh("acq.vals", elemSort(valS[k]))))
 			}
 			l := st.hget(ln, SArr(SRef, SInt))
-			st.hset(ln, Store(l, mv.T, x.enc.Fresh("acq.len", SInt)))
+			nl := x.enc.Fresh("acq.len", SInt)
+			st.assume(And(app(SBool, "<=", IntLit(0), nl), app(SBool, "<=", nl, IntLit(1<<48))))
+			st.hset(ln, Store(l, mv.T, nl))
 		}
 	}
+}
+
+// structTypeByName finds a named struct type of the module by its "pkg.Name".
+func (x *Exec) structTypeByName(name string) types.Type {
+	dot := strings.Index(name, ".")
+	if dot < 0 {
+		return nil
+	}
+	pkg, tn := name[:dot], name[dot+1:]
+	for _, pp := range x.prog.Pkgs {
+		if pp.Types.Name() != pkg {
+			continue
+		}
+		if o, ok := pp.Types.Scope().Lookup(tn).(*types.TypeName); ok {
+			if _, isS := o.Type().Underlying().(*types.Struct); isS {
+				return o.Type()
+			}
+		}
+	}
+	return nil
 }
 
 // ledgerUpdate: entry ledger maintenance on children maps.
 func (x *Exec) ledgerUpdate(fr *Frame, st *State, in ssa.Instruction, mt *types.Map, m, key Val, v *Val) {
 	x.mapAccessCheck(fr, st, in, m, true)
+	// "at store <field> assert" clauses of the function being executed
+	if fr.contract == nil || m.K != VTerm {
+		return
+	}
+	g, ok := st.guards[m.T.S]
+	if !ok {
+		return
+	}
+	// ordinal of this store among the map stores of the function, in source order
+	ord := 0
+	for _, b := range fr.fn.Blocks {
+		for _, in2 := range b.Instrs {
+			if mu, isMU := in2.(*ssa.MapUpdate); isMU && mu != in && mu.Pos() < in.Pos() {
+				ord++
+			}
+		}
+	}
+	for _, cl := range fr.contract.AtCalls {
+		if cl.Callee != "store:"+g.field && cl.Callee != fmt.Sprintf("store:%s#%d", g.field, ord) {
+			continue
+		}
+		env := x.loopEnv(fr, st)
+		kv := key
+		kv.Typ = mt.Key()
+		env.vars["key"] = kv
+		vv := *v
+		vv.Typ = mt.Elem()
+		env.vars["val"] = vv
+		mv := m
+		mv.Typ = mt
+		env.vars["themap"] = mv
+		t, err := env.EvalBool(cl.Node)
+		if err != nil {
+			x.abort("at store %s: %v", g.field, err)
+		}
+		x.clauseUsed[cl]++
+		st.check(x.newObl(fr.fn, "assert@"+cl.Callee, cl.Label(), cl.Props, cl.Source), t)
+	}
 }
 
 // entryLockFact: the ghost lock state at entry.  Nothing is held, except the locks named in
